@@ -74,11 +74,17 @@ type lsArg struct {
 	Sub  string `json:",omitempty"` // root argument is <root>/<Sub> (overlapping roots, renames without moving)
 }
 
+// lsSel is one remove selector. "name"/"source" are literal; the "nth-*"
+// kinds are resolved against the index as it is when the command runs: the
+// N-th (mod count) indexed repository's name, its source path, or a near
+// miss derived from its name (Junk: prefix | dotgit | longer | base).
 type lsSel struct {
-	Kind string // name | source
-	Text string `json:",omitempty"` // name selector
-	Root int    `json:",omitempty"` // source selector: <root>/<Path>
+	Kind string // name | source | nth-name | nth-source | nth-junk
+	Text string `json:",omitempty"` // name
+	Root int    `json:",omitempty"` // source: <root>/<Path>
 	Path string `json:",omitempty"`
+	N    int    `json:",omitempty"`
+	Junk string `json:",omitempty"`
 }
 
 type lsCmd struct {
@@ -239,7 +245,7 @@ func lsGenMut(g kit.G, m *lsGenModel, def []int) lsMut {
 }
 
 func lsGenCmd(g kit.G, m *lsGenModel, def []lsArg, step, nsteps int) lsCmd {
-	if step > 0 && step < nsteps-1 && g.Bool(28, "remove") || (step == nsteps-1 && step > 0 && g.Bool(12, "remove-last")) {
+	if step > 0 && step < nsteps-1 && g.Bool(20, "remove") || (step == nsteps-1 && step > 0 && g.Bool(8, "remove-last")) {
 		cmd := lsCmd{Op: "remove"}
 		n := 1
 		if g.Bool(15, "twosel") {
@@ -249,37 +255,20 @@ func lsGenCmd(g kit.G, m *lsGenModel, def []lsArg, step, nsteps int) lsCmd {
 			var s lsSel
 			k := g.Int(0, 99, "selkind")
 			switch {
-			case len(m.repos) > 0 && k < 55:
-				r := kit.Pick(g, m.repos, "selrepo")
-				s = lsSel{Kind: "name", Text: lsModelName(lsRootPool[r.Root], r.Path, r.Kind)}
-			case len(m.repos) > 0 && k < 75:
+			case k < 45:
+				s = lsSel{Kind: "nth-name", N: g.Int(0, 5, "seln")}
+			case k < 65:
+				s = lsSel{Kind: "nth-source", N: g.Int(0, 5, "seln")}
+			case k < 85:
+				s = lsSel{Kind: "nth-junk", N: g.Int(0, 5, "seln"), Junk: kit.Pick(g, []string{"prefix", "dotgit", "longer", "base"}, "junk")}
+			case len(m.repos) > 0 && k < 92:
 				r := kit.Pick(g, m.repos, "selrepo")
 				s = lsSel{Kind: "source", Root: r.Root, Path: r.Path}
+			case len(m.repos) > 0 && k < 97:
+				r := kit.Pick(g, m.repos, "selrepo")
+				s = lsSel{Kind: "name", Text: lsModelName(lsRootPool[r.Root], r.Path, r.Kind)}
 			default:
-				base := "team/x"
-				if len(m.repos) > 0 {
-					r := kit.Pick(g, m.repos, "selrepo")
-					base = lsModelName(lsRootPool[r.Root], r.Path, r.Kind)
-				}
-				switch g.Int(0, 4, "junk") {
-				case 0: // first path component / proper prefix
-					if i := strings.Index(base, "/"); i > 0 {
-						s = lsSel{Kind: "name", Text: base[:i]}
-					} else {
-						s = lsSel{Kind: "name", Text: base[:len(base)-1]}
-					}
-				case 1:
-					s = lsSel{Kind: "name", Text: base + ".git"}
-				case 2:
-					s = lsSel{Kind: "name", Text: base + "x"}
-				case 3: // last path component
-					s = lsSel{Kind: "name", Text: path.Base(base)}
-				default:
-					s = lsSel{Kind: "name", Text: "no/such"}
-				}
-				if s.Text == "" {
-					s.Text = "no/such"
-				}
+				s = lsSel{Kind: "name", Text: "no/such"}
 			}
 			cmd.Sels = append(cmd.Sels, s)
 		}
@@ -291,14 +280,30 @@ func lsGenCmd(g kit.G, m *lsGenModel, def []lsArg, step, nsteps int) lsCmd {
 	} else {
 		cmd.Roots = lsGenRoots(g, "alt")
 	}
-	if g.Bool(14, "subarg") {
+	if g.Bool(16, "subarg") {
 		i := g.Int(0, len(cmd.Roots)-1, "subarg-i")
 		cmd.Roots = append([]lsArg(nil), cmd.Roots...)
-		if g.Bool(50, "subarg-extra") {
+		// a directory that (probably) exists: an ancestor of, or the directory of, a repository of that root
+		var subs []string
+		for _, r := range m.repos {
+			if r.Root == cmd.Roots[i].Root && r.Path != "." {
+				subs = append(subs, r.Path)
+				for _, a := range lsAncestors(r.Path) {
+					if a != "." {
+						subs = append(subs, a, a) // ancestors twice as likely
+					}
+				}
+			}
+		}
+		if len(subs) == 0 {
+			subs = lsSubPool
+		}
+		sub := kit.Pick(g, subs, "sub")
+		if g.Bool(40, "subarg-extra") {
 			// overlapping: keep the root and add a sub-directory of it
-			cmd.Roots = append(cmd.Roots, lsArg{Root: cmd.Roots[i].Root, Sub: kit.Pick(g, lsSubPool, "sub")})
+			cmd.Roots = append(cmd.Roots, lsArg{Root: cmd.Roots[i].Root, Sub: sub})
 		} else {
-			cmd.Roots[i].Sub = kit.Pick(g, lsSubPool, "sub")
+			cmd.Roots[i].Sub = sub
 		}
 	}
 	return cmd
@@ -330,7 +335,7 @@ func lsGen(rt *rapid.T) lsCase {
 		var st lsStep
 		nm := g.Int(0, 3, "nmuts")
 		if s == 0 {
-			nm = g.Int(1, 5, "nmuts0")
+			nm = g.Int(2, 6, "nmuts0")
 		}
 		for j := 0; j < nm; j++ {
 			st.Muts = append(st.Muts, lsGenMut(g, m, defIdx))
@@ -978,6 +983,7 @@ type lsResolvedArg struct {
 // exists); otherwise the argument falls back to the root itself.
 func (w *lsWorld) resolveArgs(args []lsArg) []lsResolvedArg {
 	var out []lsResolvedArg
+	seen := map[string]bool{}
 	for _, a := range args {
 		if a.Root < 0 || a.Root >= len(w.roots) {
 			continue
@@ -987,6 +993,10 @@ func (w *lsWorld) resolveArgs(args []lsArg) []lsResolvedArg {
 			ra.Sub = a.Sub
 			ra.Abs = w.abs(a.Root, a.Sub)
 		}
+		if seen[ra.Abs] {
+			continue // the same directory twice is not an interesting root set
+		}
+		seen[ra.Abs] = true
 		out = append(out, ra)
 	}
 	return out
@@ -1090,7 +1100,7 @@ func (w *lsWorld) cmdArgs(c *lsCase, cmd lsCmd) (preview, force []string, ok boo
 			head = []string{"sync"}
 		}
 		// build options are constant across the history
-		head = append(head, "-index", w.index, "-disable_ctags", "-submodules=false")
+		head = append(head, "-index", w.index, "-disable_ctags", "-submodules=false", "-shard_limit", "1048576")
 		var tail []string
 		for _, a := range ras {
 			tail = append(tail, a.Abs)
@@ -1099,7 +1109,11 @@ func (w *lsWorld) cmdArgs(c *lsCase, cmd lsCmd) (preview, force []string, ok boo
 		force = append(append(append([]string{}, head...), "-f"), tail...)
 		return preview, force, true
 	case "remove":
-		sels := w.selectors(cmd)
+		inv, err := w.inventory()
+		if err != nil {
+			return nil, nil, false
+		}
+		sels := w.selectors(cmd, inv)
 		if len(sels) == 0 {
 			return nil, nil, false
 		}
@@ -1110,17 +1124,64 @@ func (w *lsWorld) cmdArgs(c *lsCase, cmd lsCmd) (preview, force []string, ok boo
 	return nil, nil, false
 }
 
-func (w *lsWorld) selectors(cmd lsCmd) []string {
+// selectors resolves the step's selectors to command-line words; inv is the
+// inventory of the index at that moment (for the nth-* kinds).
+func (w *lsWorld) selectors(cmd lsCmd, inv []lsShard) []string {
+	type rec struct{ name, source string }
+	var recs []rec
+	seen := map[rec]bool{}
+	for _, s := range inv {
+		r := rec{s.Name, s.Source}
+		if !seen[r] {
+			seen[r] = true
+			recs = append(recs, r)
+		}
+	}
+	sort.Slice(recs, func(i, j int) bool {
+		if recs[i].name != recs[j].name {
+			return recs[i].name < recs[j].name
+		}
+		return recs[i].source < recs[j].source
+	})
 	var out []string
+	add := func(s string) {
+		if s != "" && !strings.HasPrefix(s, "-") {
+			out = append(out, s)
+		}
+	}
 	for _, s := range cmd.Sels {
 		switch s.Kind {
 		case "name":
-			if s.Text != "" && !strings.HasPrefix(s.Text, "-") {
-				out = append(out, s.Text)
-			}
+			add(s.Text)
 		case "source":
 			if s.Root >= 0 && s.Root < len(w.roots) && lsValidRel(s.Path) {
-				out = append(out, w.abs(s.Root, s.Path))
+				add(w.abs(s.Root, s.Path))
+			}
+		case "nth-name", "nth-source", "nth-junk":
+			if len(recs) == 0 || s.N < 0 {
+				add("no/such")
+				continue
+			}
+			r := recs[s.N%len(recs)]
+			switch {
+			case s.Kind == "nth-name":
+				add(r.name)
+			case s.Kind == "nth-source":
+				add(r.source)
+			case s.Junk == "prefix":
+				if i := strings.Index(r.name, "/"); i > 0 {
+					add(r.name[:i])
+				} else if len(r.name) > 1 {
+					add(r.name[:len(r.name)-1])
+				} else {
+					add("no/such")
+				}
+			case s.Junk == "dotgit":
+				add(r.name + ".git")
+			case s.Junk == "longer":
+				add(r.name + "x")
+			default:
+				add(path.Base(r.name) + "/" + path.Base(r.name))
 			}
 		}
 	}
